@@ -24,7 +24,7 @@ LEVEL_TEXT = ('The decoder is compared line by line with a reference decoder wri
               'one-nibble deviation, and the table as read by the repository is compared with an independent scan.')
 LEVEL_NOTE = ('PTE values outside the derived alphabets and header syntax beyond the shipped style are not explored; CPython '
               '%-formatting trusted')
-RULE = ('synthetic: tables = all sequences of length 0..2 (quick) / 0..3 (thorough) over 25 (pattern, message, params) entries (incl. multi-digit parameter numbers, a non-wildcard metacharacter, reported-error catch-all), '
+RULE = ('synthetic: tables = all sequences of length 0..2 (quick) / 0..3 (thorough) over 28 (pattern, message, params) entries (incl. multi-digit parameter numbers, a non-wildcard metacharacter, reported-error catch-all), '
         'each in 2 syntax variants; data = blob of all alphabet entries, the reversed blob with all-zero entries '
         'interleaved, each with trailing partial lengths 0..7. shipped: per table entry, wildcard runs filled jointly with '
         '{0,1,4,5,9,A,F} x reported bit {as is,set,clear} x top nibble {as is,E}; literal patterns x 8 positions x 2 '
@@ -61,6 +61,10 @@ ALPHA = [
     ('0106**00', 'fan duty 100%% - full speed', []),
     ('0106****', 'escaped %% and a discarded parameter', [7]),
     ('E6******', 'reported at the 50%% threshold', []),
+    # a matching entry whose description is empty or blank is still the match ('Undefined' is for "none matches")
+    ('0107**00', '', []),
+    ('0107****', '   ', []),
+    ('E7******', '', [3]),
 ]
 TS = [0, 1, 3599, 3600, 65534, 65535]
 SEQ = [0, 0xBEEF]
@@ -75,7 +79,7 @@ def pte_alphabet():
                     out.append((n0 << 28) | (n1 << 24) | (n3 << 16) | n7)
     out += [0x01004142, 0x01014142, 0x0101FF00, 0xFFFFFFFF, 0x00000000, 0xE1040000, 0xE1000000, 0xE0041234, 0xF0040000, 0xE20C0190, 0xE2080190, 0xE30C7704, 0xE3087704,
             0x01022A00, 0x01022A2B, 0x01042A00, 0x01042A2B, 0x01052A2B, 0x0103A000, 0x01030000, 0xE4040000, 0xE4000000, 0xEF0C0001,
-            0x01062A00, 0x01062A2B, 0xE60C7704, 0xE6087704]
+            0x01062A00, 0x01062A2B, 0xE60C7704, 0xE6087704, 0x01072A00, 0x01072A2B, 0xE70C7704, 0xE7087704]
     return out
 
 
